@@ -38,8 +38,8 @@ class VivoRecorder:
 
     def observe(self, name):
         """an observation point between order calls (strategy hooks, trade boundaries): what `store.orders` reports there"""
-        if name in ("before", "after", "update_position"):
-            return                          # every candle: too many; the hooks around order calls and trade boundaries stay
+        # every hook of every route is an observation point (also before/after/update_position of the OTHER routes in
+        # the same tick); an observation that shows nothing new since the last logged state is not recorded
         try:
             s = self.snap()
         except Exception:
@@ -153,6 +153,7 @@ def make_strategy(policy, rec):
     from .. import session
     base = session.make_policy_strategy(policy, observe=lambda st, name, order: rec.observe(name))
     pd, ph = policy.get("p_double_market_exit", 0.0), policy.get("p_market_exit_in_hook", 0.0)
+    pc = policy.get("p_cancel_all_routes", 0.0)
 
     class VivoStrategy(base):
         def _rr(self, hook):
@@ -180,6 +181,16 @@ def make_strategy(policy, rec):
 
         def on_cancel(self):
             rec.observe("on_cancel")
+
+        def before(self):
+            # one route cancels everything of EVERY route (also market entries of earlier routes that are still pending)
+            if pc and self._rr("call").random() < pc:
+                from jesse.routes import router
+                for r in router.routes:
+                    if r.strategy is not None:
+                        r.strategy.broker.cancel_all_orders()
+                rec.observe("cancel_all_routes")
+            super().before()
 
     return VivoStrategy
 
@@ -213,12 +224,12 @@ def run_one(arg):
             "args": [kind, policy, cfgargs, cargs, fast]}
 
 
-def specs(kind, n, seed, first_id=1, minutes=(120, 180)):
+def specs(kind, n, seed, first_id=1, minutes=(120, 180), multi=False):
     import random
     rng = random.Random(seed * 104729 + (1 if kind == "futures" else 2))
     out = []
     for i in range(n):
-        nsym = 1 if i % 3 else 2
+        nsym = (2 + (i // 2) % 2 if i % 2 == 0 else 1) if multi else (1 if i % 3 else 2)
         policy = dict(seed=rng.randrange(10 ** 6), tick=1.0, qtys=(1, 2), entry_every=rng.choice([5, 7, 9]),
                       allow_short=(kind == "futures"), spot=(kind == "spot"),
                       exits_in=rng.choice(["go", "on_open", "mixed"]) if kind == "futures" else "on_open",
@@ -228,12 +239,14 @@ def specs(kind, n, seed, first_id=1, minutes=(120, 180)):
                       p_liquidate=0.05 if kind == "futures" else (0.05 if i % 6 == 0 else 0.0),
                       p_edit_on_reduced=0.0,       # that edit derives a price from the average entry (off the integer lattice)
                       p_double_market_exit=rng.choice([0.0, 0.15, 0.3]), p_market_exit_in_hook=rng.choice([0.0, 0.3, 0.6]),
+                      p_cancel_all_routes=(rng.choice([0.0, 0.02, 0.05]) if multi else 0.0),
                       oversize_sl=(i % 4 == 0 and kind == "futures"), max_entry_rows=2, max_exit_rows=2)
         fee = rng.choice([(0, 1), (1, 16), (1, 64)])
         cfgargs = {"balance": rng.choice([400, 1000]), "fee": fee, "lev": rng.choice([1, 2, 4]) if kind == "futures" else 1}
-        cargs = {"syms": ["A", "B"][:nsym], "n": rng.choice(list(minutes)), "seed": rng.randrange(10 ** 6),
+        cargs = {"syms": ["A", "B", "C"][:nsym], "n": rng.choice(list(minutes)), "seed": rng.randrange(10 ** 6),
                  "start": rng.choice([24, 30, 40]), "floor": 8}
-        out.append((first_id + i, kind, policy, cfgargs, cargs, bool(i % 2)))
+        fast = bool(i % 2) if not multi else bool((i // 2) % 2 == 0)      # multi: the multi-route runs alternate fast / step
+        out.append((first_id + i, kind, policy, cfgargs, cargs, fast))
     return out
 
 
